@@ -13,7 +13,7 @@
 (***************************************************************************)
 EXTENDS Expand, Json, IOUtils
 
-CONSTANTS Strict, MaxTid
+CONSTANTS Strict, MaxTid, CheckLeak
 
 TraceLog == ndJsonDeserialize(IOEnv.TRACE)
 
@@ -88,7 +88,8 @@ TSrcRel == /\ Is("SrcRel") /\ Step /\ Must(Source, "source_mutex held")
                                   sinkQ, acks, written, failed, bpb, meta, rss, nrun>>
               ELSE DSrcEmpty /\ Keep
            /\ Must(Ev.is = inSlots', "in_slots")
-TSrcClose == /\ Is("SrcClose") /\ Step /\ Must(Source, "source_mutex held") /\ UNCHANGED dvars /\ Keep
+TSrcClose == /\ Is("SrcClose") /\ Step /\ Must(Source, "source_mutex held") /\ Must(Sched, "sched_mutex held")
+             /\ DSrcClose(Ev.tid) /\ Keep
 TSrcStop == /\ Is("SrcStop") /\ Step /\ Must(Source, "source_mutex held") /\ DSrcStop /\ Keep
 TAvail == /\ Is("Avail") /\ Step /\ Must(Sched, "sched_mutex held")
           /\ Must(~parsingDone, "input accepted only before FINISH")
@@ -141,17 +142,20 @@ TParseBlock == /\ Is("ParseBlock") /\ Step /\ Must(Sched, "sched_mutex held")
 \* ---- retriever ----
 TRetrBegin == /\ Is("RetrBegin") /\ Step /\ Begin("retrieve")
               /\ Must(retrQ # {} /\ ~parsingDone, "retr_q not empty")
-              /\ LET r == MinRetr(retrQ) IN
-                 /\ Must(r.base = Ev.maj * bpb + Ev.bit /\ r.cur = P(Ev.cmaj, Ev.cbit, Ev.coff) /\ r.link = (Ev.link = 1), "head of retr_q")
+              /\ LET r == [base |-> Ev.maj * bpb + Ev.bit, cur |-> P(Ev.cmaj, Ev.cbit, Ev.coff), link |-> (Ev.link = 1)] IN
+                 /\ Must(r \in MinRetrs(retrQ), "head of retr_q")
                  /\ Must(CanAttach(r.cur.o), "job position is attachable")
                  /\ Must(r.cur.o >= headOffs, "job position not behind released input (assert in can_attach)")
-              /\ Must(pend[Ev.tid] = 0, "no unaccounted release")
-              /\ DRetrBegin(Ev.tid) /\ Scalars /\ Keep
+                 /\ Must(pend[Ev.tid] = 0, "no unaccounted release")
+                 /\ DRetrBegin(Ev.tid, r)
+              /\ Scalars /\ Keep
 TRetrEnd == /\ Is("RetrEnd") /\ Step /\ Must(Sched, "sched_mutex held")
             /\ Must(Carry(Ev.tid).k = "retr" /\ Carry(Ev.tid).rb.base = Ev.maj * bpb + Ev.bit, "thread is retrieving this block")
             /\ Must(CASE Ev.kind = "dead" -> RetrKind(Ev.tid) = "dead"
                       [] Ev.kind = "redundant" -> RetrKind(Ev.tid) = "redundant"
                       [] Ev.kind = "more" -> RetrKind(Ev.tid) = "live" /\ Ev.rv = MORE /\ (Ev.master = 1) = RetrMaster(Ev.tid)
+                      [] Ev.kind = "overtaken" -> RetrKind(Ev.tid) = "live" /\ Ev.rv = MORE /\ ~RetrMaster(Ev.tid)
+                                                  /\ Ev.coff < HeadOf(AfterDetach(Carry(Ev.tid).pin).q)
                       [] Ev.kind = "done" -> RetrKind(Ev.tid) = "live" /\ Ev.rv # MORE /\ (Ev.master = 1) = RetrMaster(Ev.tid)
                       [] OTHER -> FALSE, "retrieve outcome class")
             /\ DRetrEnd(Ev.tid, Ev.rv, P(Ev.cmaj, Ev.cbit, Ev.coff), pend[Ev.tid])
@@ -184,13 +188,14 @@ TReorder == /\ Is("Reorder") /\ Step /\ Begin("reorder")
             \* a failing block ends the process (failf) half-way through do_reorder(): no post-state to compare
             /\ DReorder(Ev.tid, Ev.st) /\ (IF Ev.kind = "fail" THEN TRUE ELSE Scalars) /\ Keep
 TSinkPush == /\ Is("SinkPush") /\ Step /\ Must(Sink, "sink_mutex held")
-             /\ Must(Ev.n = Len(sinkQ), "size(output_q)")
+             \* (the writer may pop between the Reorder event and the physical push)
+             /\ Must(Ev.n <= Len(sinkQ) /\ Ev.n <= cfg.TotOut, "size(output_q)")
              /\ Must(sinkQ # <<>> /\ MetaOf(sinkQ[Len(sinkQ)]).size = Ev.size, "pushed buffer is the reordered one")
              /\ UNCHANGED dvars /\ Keep
 TSinkPop == /\ Is("SinkPop") /\ Step /\ Must(Sink, "sink_mutex held")
             /\ Must(sinkQ # <<>>, "output_q not empty")
             /\ Must(MetaOf(Head(sinkQ)).size = Ev.size, "popped buffer is the oldest one")
-            /\ DSinkPop /\ Must(Ev.n = Len(sinkQ'), "size(output_q)") /\ Keep
+            /\ DSinkPop /\ Must(Ev.n <= Len(sinkQ'), "size(output_q)") /\ Keep
 TWritten == /\ Is("Written") /\ Step /\ Must(Sched, "sched_mutex held") /\ DWritten /\ Scalars /\ Keep
 TSinkFinish == /\ Is("SinkFinish") /\ Step /\ Must(Sink, "sink_mutex held") /\ UNCHANGED dvars /\ Keep
 TSinkExit == /\ Is("SinkExit") /\ Step /\ Must(sinkQ = <<>> /\ acks = 0, "writer leaves with nothing pending")
@@ -223,7 +228,7 @@ TUninit == /\ Is("Uninit") /\ Step
            /\ Must(inSlots = cfg.TotIn /\ ConserveIn(0), "all input slots returned")
            /\ Must(Ev.wu = cfg.W /\ Ev.os = cfg.TotOut /\ Ev.is = cfg.TotIn /\ Ev.eof = 1, "all units and slots returned")
            /\ Must(Ev.live[1] = 0 /\ Ev.live[3] = 0 /\ Ev.live[4] = 0, "no buffer outlives the run")
-           /\ Must(Ev.live[5] = 0, "no unord_blk outlives the run")
+           /\ (IF CheckLeak THEN Must(Ev.live[5] = 0, "no unord_blk outlives the run") ELSE TRUE)
            /\ Must(Ev.peak[1] <= cfg.TotIn /\ Ev.peak[3] <= cfg.TotOut /\ Ev.peak[4] <= cfg.W, "peak buffers within slot totals")
            /\ rss' = Ev.rss /\ UNCHANGED <<dvars, bpb, pend, meta, nrun>>
 
